@@ -118,3 +118,18 @@ let p_decomp = function
 let rmap f = function Ok a -> Ok (f a) | PanicAlways -> PanicAlways | PanicDebug -> PanicDebug
 let ok x = Ok x
 
+
+(* ------------------------------------------------------------------ integers (Z) and 0-1 programmes *)
+let int_of_z = function Z0 -> 0 | Zpos p -> int_of_pos p | Zneg p -> - (int_of_pos p)
+let z_of_int i = if i = 0 then Z0 else if i > 0 then Zpos (pos_of_int i) else Zneg (pos_of_int (- i))
+let p_z s = z_of_int (int_of_string s)
+let s_lin (l : lin) =
+  String.concat "," (List.map (fun (c, v) -> Printf.sprintf "%d*%d" (int_of_z c) (int_of_nat v)) l.lcoef)
+  ^ "+" ^ string_of_int (int_of_z l.lconst)
+let s_program (p : program) (cubes : cube list) (ecs : ecube list) =
+  let p = program_canon p in
+  "K=" ^ String.concat "" (List.map (function VBinary -> "B" | VNonNeg -> "N" | VInteger -> "I") p.pkinds)
+  ^ "|C=" ^ String.concat ";" (List.map (fun c -> s_lin c.cexpr ^ (match c.crel with RLe -> "<" | REq -> "=")) p.pconstrs)
+  ^ "|O=" ^ s_lin p.pobj
+  ^ "|CU=" ^ String.concat ";" (List.map s_cube cubes)
+  ^ "|EC=" ^ String.concat ";" (List.map s_ecube ecs)
